@@ -101,6 +101,23 @@ func (env *SpecEnv) call(x ECall, hint types.Type) Value {
 			a := env.evalTerm(x.Args[0], nil)
 			b := env.evalTerm(x.Args[1], a.T)
 			return Term{S: sx("=", sx("(_ map and)", a.S, b.S), sx(sx("as const", tc.sortOf(a.T)), "false")), T: types.Typ[types.Bool]}
+		case "at":
+			// at(N, e): the value e had at the head of the current iteration of (enclosing) loop N
+			if len(x.Args) != 2 || env.fr == nil {
+				sfail("at(N, e) needs a loop number and an expression")
+			}
+			nl, isLit := x.Args[0].(EInt)
+			if !isLit {
+				sfail("at(N, e): N must be a literal loop number")
+			}
+			num := int(nl.Val.Int64())
+			hs := env.fr.headSts[num]
+			if hs == nil {
+				sfail("at(%d, ...): loop %d has not been entered here", num, num)
+			}
+			n := env.sub()
+			n.st = hs
+			return n.eval(x.Args[1], hint)
 		case "prev":
 			// prev(e): the value e had at the head of this loop iteration (only in 'loop N atback' clauses)
 			if env.prevSt == nil {
